@@ -68,6 +68,41 @@ __CPROVER_ensures((log_level >= self->_log_level && !OLD(self->_new_filter)) ==>
     dropped=['the statement attributes passed to each filter (a filter is an arbitrary predicate of them: its answer is the ghost g_accepts)', 'LockGuard RAII unlock', 'unique_ptr ownership of the global filters'],
     trusted=['filter collections abstracted to {one tracked filter, one representative of the others}; std::all_of = conjunction'], min_obligations=30)
 
+# ------------------------------------------------------------------------------------------ Sink::add_filter
+AF_PRELUDE = SK_PRELUDE + r"""
+bool g_dup;                       /* ghost: a filter with the same name is already attached (answer of the std::find_if over the names) */
+size_t g_clock, g_t_lock, g_t_push, g_t_flag, g_pushes; Filter* g_pushed_filter;
+void LOCK_GUARD_T(Spinlock* l) __CPROVER_assigns(g_locked, g_clock, g_t_lock) __CPROVER_ensures(g_locked && g_clock == OLD(g_clock) + 1 && g_t_lock == g_clock);
+static inline bool NAME_EXISTS(SK* s, Filter* f) { return g_dup; }
+void FVec_push_T(FVec* v, Filter* f) __CPROVER_requires(g_locked) /*@ C16 "the shared filter list is only changed under its lock" */
+__CPROVER_assigns(v->n, g_pushes, g_pushed_filter, g_clock, g_t_push) __CPROVER_ensures(v->n == OLD(v->n) + 1 && g_pushes == OLD(g_pushes) + 1 && g_pushed_filter == f && g_clock == OLD(g_clock) + 1 && g_t_push == g_clock);
+void FLAG_store(SK* s, bool v, int mo) __CPROVER_requires(g_locked) /*@ C16 "the new-filter flag is raised before the lock is released (the release of the lock publishes it together with the list)" */
+__CPROVER_assigns(s->_new_filter, g_clock, g_t_flag) __CPROVER_ensures(s->_new_filter == v && g_clock == OLD(g_clock) + 1 && g_t_flag == g_clock);
+#undef ATOMIC_STORE__new_filter
+#define ATOMIC_STORE__new_filter(s, v, mo) FLAG_store(s, v, mo)
+"""
+add_filter = dict(
+    name='SK.add_filter', primary='C16', props={'C16'}, kind='S',
+    desc='Sink::add_filter: under the lock the filter is appended and then the new-filter flag raised, so the next statement the backend filters for this sink sees it; a duplicate name is rejected and changes nothing',
+    structs=[SK_STRUCT], prelude=AF_PRELUDE, enforce='SK_add_filter', replace=['LOCK_GUARD_T', 'FVec_push_T', 'FLAG_store'],
+    funcs=[dict(src=dict(header=SH, cls='Sink', name='add_filter'), struct='SK', src_params=['filter'], cfun='SK_add_filter', sig='void SK_add_filter(SK* self, Filter* filter)', cls_c='SK',
+                methods={'push_back': 'FVec_push_T'}, exceptions=True, may_throw=[],
+                pre_rules=[(r'detail::LockGuard\s+const\s+lock\s*\{\s*_global_filters_lock\s*\}\s*;', 'LOCK_GUARD_T(&_global_filters_lock);', 1),
+                           (r'auto\s+const\s+search_filter_it\s*=\s*std::find_if\s*\(.*?\}\s*\)\s*;', 'bool const search_found = NAME_EXISTS(self, filter);', 1),
+                           (r'search_filter_it\s*!=\s*_global_filters\.cend\(\)', 'search_found', 1),
+                           (r'std::move\(filter\)', 'filter', 1),
+                           (r'throw\s*\(?\s*QuillError\s*\{.*?\}\s*\)?\s*;', 'throw(QuillError{"x"});', 1)],
+                contract=r"""
+__CPROVER_requires(__CPROVER_is_fresh(self, sizeof(*self)) && g_exc == 0 && !g_locked && g_clock == 0 && g_pushes == 0 && self->_global_filters.n < 1000000)
+__CPROVER_assigns(self->_global_filters.n, self->_new_filter, g_locked, g_exc, g_clock, g_t_lock, g_t_push, g_t_flag, g_pushes, g_pushed_filter)
+__CPROVER_ensures(g_dup ==> (g_exc == EXC_STD && g_pushes == 0 && self->_new_filter == OLD(self->_new_filter))) /*@ C16 "a second filter with the same name is rejected and nothing changes" */
+__CPROVER_ensures(!g_dup ==> (g_exc == 0 && g_pushes == 1 && g_pushed_filter == filter && self->_global_filters.n == OLD(self->_global_filters.n) + 1)) /*@ C16 "the filter is attached to this sink exactly once" */
+__CPROVER_ensures(!g_dup ==> (self->_new_filter && g_t_lock < g_t_push && g_t_push < g_t_flag)) /*@ C16 "after add_filter returns the new-filter flag is up and was raised after the list changed: the backend refreshes its copy before it filters the next statement for this sink" */
+""")],
+    harness='  SK* s; Filter* f; SK_add_filter(s, f);',
+    dropped=['comparison of filter names (std::find_if) as a ghost answer', 'LockGuard RAII unlock at scope exit (also on the throw path)', 'unique_ptr ownership'],
+    trusted=['Spinlock acquire / release (units SP.lock, SP.unlock) order the relaxed flag store with the list for the backend, which reads the flag and then takes the same lock (unit SK.apply_filters)'], min_obligations=15)
+
 # ------------------------------------------------------------------------------------------ _write_log_statement
 WS_PRELUDE = ENUMS + r"""
 /* a PatternFormatter is represented by a non-zero integer id (0 = null shared_ptr); format() returns the id of its
@@ -133,7 +168,7 @@ __CPROVER_ensures(T_(transit_event_p)->g_writes <= 1) /*@ C03 "no sink is writte
     trusted=['sink list abstracted to {one tracked sink, one representative of the others}', 'Sink::apply_all_filters by its contract (unit SK.apply_filters)', 'PatternFormatter::format is a function of the formatter (its output id)'],
     min_obligations=50)
 
-UNITS = [apply_filters, write_stmt]
+UNITS = [apply_filters, add_filter, write_stmt]
 
 # ------------------------------------------------------------------------------------------ _flush_and_run_active_sinks
 FS_PRELUDE = r'''
